@@ -20,6 +20,33 @@ args = [
  ['[', '1', '..', '2', ']'], ['(', '"a"', '..', '"b"', ')'], ['function', '(', 'x', ')', 'x'], ['biglist'], ['bigtext'],
 ]
 quick_args = 16
+# machine-integer edges (the ends of u8 / u16 / i32 / u32 / i64 / u64 and their neighbours), as literal tokens; the first
+# `quick_edges` are used in the quick tier
+def lit(n):
+    return [str(n)] if n >= 0 else ['-', str(-n)]
+edges = [2147483647, 2147483648, 4294967296, 9223372036854775807, 9223372036854775808, 18446744073709551615, 18446744073709551616, -2147483649, -9223372036854775808, -9223372036854775809,
+         4294967295, 9223372036854775806, -2147483648, 255, 256, 65535, 65536, 18446744073709551614]
+quick_edges = 10
+# strings holding the character U+0000 (written as an escape), which C interfaces cannot carry
+nul_strings = [['"' + U + '0000' + '"'], ['"1' + U + '00002"']]
+fillers = [['[', '1', ',', '2', ',', '3', ']'], ['"abc"'], ['2'], ['@', '"2021-01-01"']]
+# offsets for time(h, m, s, offset): inside, at and beyond what a zone offset can be
+offsets = ['PT14H', 'PT14H1S', 'PT18H', 'PT23H59M59S', 'P1D', '-P1D', 'PT24H1S', 'P2D', '-PT23H59M59S', 'P1000D', '-PT18H', 'PT0.5S']
+edge_special = []
+for e in edges:
+    E = lit(e)
+    edge_special += [['[', '1', ',', '2', ',', '3', ']', '['] + E + [']'], ['for', 'i', 'in'] + E + ['..'] + E + ['return', 'i'],
+                     ['for', 'i', 'in'] + lit(e - 1) + ['..'] + E + ['return', 'i'], ['for', 'i', 'in'] + E + ['..'] + lit(e + 1) + ['return', 'i'],
+                     ['for', 'i', 'in'] + E + ['..'] + lit(e - 1) + ['return', 'i'], ['some', 'i', 'in'] + E + ['..'] + E + ['satisfies', 'i', '>', '0'],
+                     E + ['+', '1'], E + ['*'] + E, ['-', '('] + E + [')'], E + ['**', '2'], ['2', '**'] + E, ['1', 'in', '['] + E + ['..'] + lit(e + 1) + [']'],
+                     ['@', '"P1D"', '*'] + E, ['@', '"P1M"', '*'] + E, ['@', '"2021-01-01"', '+', '@', '"P1D"', '*'] + E]
+for d in offsets:
+    T = ['time', '(', '10', ',', '0', ',', '0', ',', 'duration', '(', '"%s"' % d, ')', ')']
+    edge_special += [T, T + ['='] + T, T + ['<'] + T, T + ['-'] + T, ['string', '('] + T + [')'], T + ['.', 'time offset'], T + ['.', 'timezone'],
+                     ['date and time', '(', 'date', '(', '"2021-01-01"', ')', ','] + T + [')'],
+                     ['date and time', '(', 'date', '(', '"2021-01-01"', ')', ','] + T + [')', '=', 'date and time', '(', '"2021-01-01T10:00:00Z"', ')'],
+                     ['date and time', '(', 'date', '(', '"2021-01-01"', ')', ','] + T + [')', '-', 'date and time', '(', '"2021-01-01T10:00:00Z"', ')'],
+                     T + ['+', '@', '"PT1H"'], T + ['in', '['] + T + ['..'] + T + [']']]
 special = [
  # temporal arithmetic and properties at extremes and switch-over readings
  ['date and time', '(', '"2021-03-28T02:30:00@Europe/Paris"', ')', '.', 'time offset'],
@@ -88,6 +115,11 @@ out.append('''------------------------------ MODULE Gen_C05 --------------------
 (*           pool of extreme values                                          *)
 (*   special hand-picked extreme temporal / numeric / positional documents   *)
 (*   nest    seeds wrapped 1..200 times in every bracketing construct        *)
+(*   edge    every built-in function with a machine-integer edge (the ends   *)
+(*           of 8 / 16 / 32 / 64-bit integers and their neighbours) or a      *)
+(*           string holding U+0000 in every argument position; the edges in  *)
+(*           filters, iteration ranges and arithmetic; time() with offsets   *)
+(*           inside, at and beyond a day, compared, subtracted and printed   *)
 EXTENDS FeelTrees, Faults, TLC, Json
 CONSTANT Deep
 
@@ -113,6 +145,23 @@ BifDocs == {<<f, "(", ")">> : f \\in Bifs}
            \\cup {<<f, "(">> \\o a \\o <<",">> \\o b \\o <<",">> \\o c \\o <<")">> : f \\in Bifs, a \\in Args3, b \\in Args2, c \\in Args3}
            \\cup {<<f, "(">> \\o a \\o <<",">> \\o a \\o <<",">> \\o a \\o <<",">> \\o a \\o <<")">> : f \\in Bifs, a \\in Args3}
 ''')
+out.append('Edges == <<' + ', '.join(seq(lit(e)) for e in edges) + '>>\n')
+out.append('QuickEdges == %d\n' % quick_edges)
+out.append('NulStrings == {' + ', '.join(seq(a) for a in nul_strings) + '}\n')
+out.append('Fillers == {' + ', '.join(seq(a) for a in fillers) + '}\n')
+out.append('''\\* every built-in function with a machine-integer edge (or a string holding U+0000) in every argument position, the other
+\\* positions holding a list, a string, a number or a date (first position) and the number 2 (the others)
+EdgeAtoms == {Edges[i] : i \\in 1..(IF Deep THEN Len(Edges) ELSE QuickEdges)} \\cup NulStrings
+TwoTok == <<"2">>
+Call1(f, a) == <<f, "(">> \\o a \\o <<")">>
+Call2(f, a, b) == <<f, "(">> \\o a \\o <<",">> \\o b \\o <<")">>
+Call3(f, a, b, c) == <<f, "(">> \\o a \\o <<",">> \\o b \\o <<",">> \\o c \\o <<")">>
+EdgeDocs == {Call1(f, e) : f \\in Bifs, e \\in EdgeAtoms}
+            \\cup {Call2(f, x, e) : f \\in Bifs, x \\in Fillers, e \\in EdgeAtoms} \\cup {Call2(f, e, x) : f \\in Bifs, x \\in Fillers, e \\in EdgeAtoms}
+            \\cup {Call3(f, x, TwoTok, e) : f \\in Bifs, x \\in Fillers, e \\in EdgeAtoms} \\cup {Call3(f, x, e, TwoTok) : f \\in Bifs, x \\in Fillers, e \\in EdgeAtoms}
+            \\cup {Call3(f, x, e, e) : f \\in Bifs, x \\in Fillers, e \\in EdgeAtoms}
+''')
+out.append('EdgeSpecialDocs == {' + ',\n                '.join(seq(s) for s in edge_special) + '}\n')
 out.append('SpecialDocs == {' + ',\n                '.join(seq(s) for s in special) + '}\n')
 out.append('NestPairs == {' + ',\n              '.join('<<%s, %s>>' % (seq(o), seq(c)) for o, c in nests) + '}\n')
 out.append('''NestDepths == IF Deep THEN {1, 2, 3, 10, 50, 100, 150, 200} ELSE {1, 3, 50, 200}
@@ -141,7 +190,7 @@ DoubleDocs == IF Deep THEN UNION {UNION {Mutants(m, SmallAlphabet) : m \\in Muta
 VARIABLE c
 Emit(fam, S) == \\E d \\in S : c = [fam |-> fam, toks |-> d] /\\ PrintT(<<"CASE", ToJson(c)>>)
 Init == Emit("tree", TreeDocs) \\/ Emit("fault", FaultDocs) \\/ Emit("fault2", DoubleDocs) \\/ Emit("escape", EscapeDocs) \\/ Emit("bif", BifDocs)
-        \\/ Emit("special", SpecialDocs) \\/ Emit("nest", NestDocs)
+        \\/ Emit("special", SpecialDocs) \\/ Emit("nest", NestDocs) \\/ Emit("edge", EdgeDocs) \\/ Emit("edge", EdgeSpecialDocs)
 Next == FALSE /\\ c' = c
 =============================================================================
 ''')
